@@ -342,8 +342,8 @@ def history_to_coq(c, r):
            users + " " + parses + ")")
     ops = clist(c_op(o) for o in mops)
     iouts = clist(c_iout(o) for o in r["outs"])
-    fresh = copt(c_iout(r["fresh"]) if r["fresh"] is not None else None)
-    each = clist(c_iout(o) for o in r["each"])
+    fresh = f"(Some {c_iout(r['fresh'])})" if r["fresh"] is not None else "(@None iout)"
+    each = clist(c_iout(o) for o in r["each"]) if r["each"] else "(@nil iout)"
     return f"({env}, {ops}, {iouts}, {fresh}, {each})"
 
 # ---------------------------------------------------------------- known findings (input classes)
